@@ -935,6 +935,12 @@ func newRlua() *rlua {
 		return []rval{LString(rtype(args[0]))}
 	})
 	reg("error", func(r *rlua, args []rval) []rval {
+		// the level only selects the position prefix of string messages, but it is type-checked first
+		if len(args) > 1 && args[1] != rval(LNil) {
+			if _, ok := rtonumber(args[1]); !ok {
+				r.fail("bad argument #2 to 'error' (number expected)")
+			}
+		}
 		panic(rerror{arg(args, 0)})
 	})
 	reg("assert", func(r *rlua, args []rval) []rval {
